@@ -4,13 +4,18 @@ func init() {
 	register(&Prop{
 		ID: "C03", Title: "Wire format is fixed; validated decoding accepts only canonical bytes", Level: "exploration",
 		Subs: []Sub{
-			{Pkg: "codec", Harness: "reencode", Weight: 5, Note: "reverse direction under the fault leg: accepted faulted encodings must re-encode to themselves"},
-			{Pkg: "codec", Harness: "refenc", Weight: 2, Note: "forward direction: Encode == independent reference encoder (pure comparison, no fault or schedule dimension)"},
+			{Pkg: "codec", Harness: "reencode", Weight: 5, Note: "reverse direction, decided under the C02 fault leg: a faulted encoding that validating Decode accepts must re-encode (with validation) to exactly the accepted bytes"},
+			{Pkg: "codec", Harness: "refenc", Weight: 2, Note: "forward direction: Encode (validation on and off) == independent reference encoder; NO fault and NO schedule dimension - a pure comparison on generated values, counted separately (probe reference-comparisons)"},
 		},
 		QuickS: 30, ThoroughS: 600,
-		Rule:   "TODO",
-		Real:   []string{"TODO"},
-		Stubs:  commonStubs,
-		Assume: []string{"TODO"},
+		Rule: "reencode: as C02/serix with validation always on - one zoo type (13 of 14; the array-of-non-bytes type cannot be decoded at all), one valid encoding, one fault class (truncate every offset / structural-flip every marked byte x 5 variants / inflated prefixes / 24 sampled data flips / 16 sampled splices); whenever Decode(WithValidation) accepts the faulted bytes b and reports n: unless the decoded value holds a timestamp outside the int64-nanosecond range (excluded by the statement; probe accepted-but-excluded), Encode(WithValidation) of the decoded value must succeed and equal b[:n]. refenc: one zoo value per run; the reference encoder is ~250 lines written from the documented layout (little-endian fixed width numbers, 0/1 bool, length prefixes of the configured width, uint8/uint32 type codes, uint32 optional marker, 32-byte little-endian uint256, uint64 nanosecond timestamps, map entries and auto-sorted slices in byte-lexical order) and driven by a hand-written declarative schema of the zoo types; Encode with and without validation must equal it byte for byte, and validating Decode of the reference bytes must return the value and consume everything. distinct = distinct (type, encoding, fault class, accepted/rejected counts) hash",
+		Real:  []string{"serializer/serix Encode/Decode with validation", "serializer.Serializer/Deserializer, ArrayRules validators"},
+		Stubs: append([]string{"storage under the decoder (fault injector over valid encodings)", "reference encoder + schema (harness/codec/refenc.go, zoo.go) as the model of the wire layout"}, commonStubs...),
+		Assume: []string{
+			"restricted claim: the reverse direction is decided on byte strings reachable by the listed faults from valid encodings of the zoo (a corruption-detection oracle), not on all byte strings; the forward direction is a reference-model comparison on generated values with no fault or schedule dimension",
+			"array rules covered: bounds, lexical order, no-duplicates (ordered and map-based validator), at-most-one-of-each-type (byte), must-occur; uint32 at-most-one-of-each-type is not in the zoo",
+			"decoder panics met in this leg are C02's business and are skipped here (probe decode-panicked)",
+			"same magnitude limit on allocation-driving 4-byte prefixes as C02",
+		},
 	})
 }
